@@ -498,18 +498,18 @@ fc_statements = [
     dict(
         name="f_bool_in",
         c_local_var=True,
-        pre_call=["{c_var} = {f_var}  ! coerce to C_BOOL"],
+        pre_call=["{c_var} =\t {f_var}  ! coerce to C_BOOL"],
     ),
     dict(
         name="f_bool_out",
         c_local_var=True,
-        post_call=["{f_var} = {c_var}  ! coerce to logical"],
+        post_call=["{f_var} =\t {c_var}  ! coerce to logical"],
     ),
     dict(
         name="f_bool_inout",
         c_local_var=True,
-        pre_call=["{c_var} = {f_var}  ! coerce to C_BOOL"],
-        post_call=["{f_var} = {c_var}  ! coerce to logical"],
+        pre_call=["{c_var} =\t {f_var}  ! coerce to C_BOOL"],
+        post_call=["{f_var} =\t {c_var}  ! coerce to logical"],
     ),
     dict(
         name="f_bool_result",
@@ -625,7 +625,7 @@ fc_statements = [
         # but c_native_**_out_buf uses buf_args=context.
         # XXX - maybe use c_native_**_out_buf_raw
         post_call=[
-            "{f_var} = {c_var_context}%base_addr",
+            "{f_var} =\t {c_var_context}%base_addr",
         ],
     ),
     dict(
@@ -661,14 +661,14 @@ fc_statements = [
         f_module=dict(iso_c_binding=["C_LOC"]),
 #        initialize=[
         pre_call=[
-            "{c_var_context}%base_addr = C_LOC({f_var})",
+            "{c_var_context}%base_addr =\t C_LOC({f_var})",
             "{c_var_context}%type = {sh_type}",
             "! {c_var_context}%elem_len = C_SIZEOF()",
 #            "{c_var_context}%size = size({f_var})",
-            "{c_var_context}%size = {size}",
+            "{c_var_context}%size =\t {size}",
             "{c_var_context}%rank = {rank}",
             # This also works with scalars since (1:0) is a zero length array.
-            "{c_var_context}%shape(1:{rank}) = shape({f_var})",
+            "{c_var_context}%shape(1:{rank}) =\t shape({f_var})",
         ],
     ),
 
